@@ -31,6 +31,7 @@ struct Call
     int d, e;
     uint64_t ncols, nphase, nblock;
     int xv = 0;
+    int env = 0; // delivery environment (vh::with_env)
 };
 
 struct Result
@@ -62,12 +63,14 @@ static Result run_call(NTT_Goldilocks &obj, const Call &c)
     E *src = (E *)in.p;
     E *dst = other ? (E *)out.p : (c.dst == "same" ? (E *)in.p : nullptr);
     E *bufp = c.buf == "caller" ? (E *)buf.p : nullptr;
-    if (c.call == "ntt")
-        obj.NTT(dst, src, N, nc, bufp, c.nphase, c.nblock);
-    else if (c.call == "intt")
-        obj.INTT(dst, src, N, nc, bufp, c.nphase, c.nblock);
-    else
-        obj.extendPol(dst, src, NE, N, nc, bufp, c.nphase, c.nblock);
+    vh::with_env(c.env, [&]() {
+        if (c.call == "ntt")
+            obj.NTT(dst, src, N, nc, bufp, c.nphase, c.nblock);
+        else if (c.call == "intt")
+            obj.INTT(dst, src, N, nc, bufp, c.nphase, c.nblock);
+        else
+            obj.extendPol(dst, src, NE, N, nc, bufp, c.nphase, c.nblock);
+    });
     uint64_t *res = other ? out.p : in.p;
     R.out.assign(res, res + outRows * nc);
     if (other)
